@@ -13,7 +13,8 @@ Theorems: coq/Properties/C03.v.  Ties (correspondence by execution):
 Independent oracle (sweep): probe decks with cells -b, +b, -b.k, +b.k converted
 end to end (impl.convert), membership in the written volumes (t4eval) against
 mcnpref.macro_facets at random points and at points just inside / outside
-every facet.'''
+every facet; about a third of the bodies carry a TR number on their surface
+card (to_surfaces_macro hands the transformation to every facet).'''
 import json
 import random
 
@@ -229,9 +230,36 @@ def wrap(card, width=76):
     return '\n'.join(lines)
 
 
-def probe_deck(bodies, extra_facets=()):
+TR_ROTATIONS = [
+    (1, 0, 0, 0, 1, 0, 0, 0, 1),
+    (0, 1, 0, -1, 0, 0, 0, 0, 1),
+    (0, 0, 1, 1, 0, 0, 0, 1, 0),
+    (-1, 0, 0, 0, 0, 1, 0, 1, 0),
+    (0.6, 0.8, 0, -0.8, 0.6, 0, 0, 0, 1),
+    (0.6, 0, -0.8, 0, 1, 0, 0.8, 0, 0.6),
+    (0, 0.28, 0.96, 0, -0.96, 0.28, 1, 0, 0),
+]
+
+
+def gen_tr(rng):
+    '''(origin, matrix): TRn O1 O2 O3 B1..B9, M = 1; rows of B = the auxiliary
+    axes in main coordinates (DESIGN Appendix A).'''
+    origin = [rng.choice([-2.0, -1.0, -0.5, 0.0, 0.0, 0.75, 1.5, 3.0])
+              for _ in range(3)]
+    return origin, list(rng.choice(TR_ROTATIONS))
+
+
+def to_main(tr, p_aux):
+    origin, mat = tr
+    rot = np.array(mat, float).reshape(3, 3)
+    return list(map(float, np.array(origin) + rot.T @ np.asarray(p_aux, float)))
+
+
+def probe_deck(bodies, extra_facets=(), trs=None):
     '''bodies: [(surface id, mnemonic, params)]. Returns (text, probes) with
-    probes = [(cell id, surface id, sign, facet or None)].'''
+    probes = [(cell id, surface id, sign, facet or None)].  trs: {surface id:
+    (origin, matrix)}: the surface card then carries a TR number.'''
+    trs = trs or {}
     cells, probes = [], []
     cid = 0
     for sid, mn, prm in bodies:
@@ -246,10 +274,13 @@ def probe_deck(bodies, extra_facets=()):
                                                        else '')
             cells.append(f'{cid} 0 {ref} imp:n=1')
             probes.append((cid, sid, sign, k))
-    surfs = [wrap(f'{sid} {mn} ' + ' '.join(num(x) for x in prm))
+    surfs = [wrap(f'{sid} {str(sid) + " " if sid in trs else ""}{mn} '
+                  + ' '.join(num(x) for x in prm))
              for sid, mn, prm in bodies]
+    data = [wrap(f'tr{sid} ' + ' '.join(num(x) for x in tr[0] + tr[1]))
+            for sid, tr in trs.items()]
     text = ('C03 probe deck\n' + '\n'.join(cells) + '\n\n' + '\n'.join(surfs)
-            + '\n\n')
+            + '\n\n' + '\n'.join(data) + ('\n' if data else ''))
     return text, probes
 
 
@@ -266,11 +297,12 @@ def expected_membership(vals, sign, k):
     return (not inside) if sign > 0 else inside
 
 
-def sweep_deck(bodies, rng, n_random, n_near):
+def sweep_deck(bodies, rng, n_random, n_near, trs=None):
     '''Convert a probe deck and compare. Returns dict(conv=, failures=[...],
     checked=int, skipped_sheet=int). A failure: dict(surface, mn, params,
     probe=(sign,k), point, expected, observed | error).'''
-    text, probes = probe_deck(bodies)
+    trs = trs or {}
+    text, probes = probe_deck(bodies, trs=trs)
     conv = impl.convert(text)
     out = {'text': text, 'conv': conv, 'failures': [], 'checked': 0,
            'skipped_sheet': 0}
@@ -293,14 +325,16 @@ def sweep_deck(bodies, rng, n_random, n_near):
                     'probe': [sign, k],
                     'error': f'cell {cid} has no volume in the written file'})
         mine = [pr for pr in mine if pr[0] in t4.volumes]
-        for p in pts:
-            vals = [f(p) for f in facets]
+        for p_aux in pts:
+            vals = [f(p_aux) for f in facets]
+            # the card is given in the auxiliary frame of its TR
+            p = to_main(trs[sid], p_aux) if sid in trs else p_aux
             cache = {}
             for cid, _, sign, k in mine:
                 want = expected_membership(vals, sign, k)
                 if want is None:
                     continue
-                if mn == 'trc' and k == 1 and G.trc_other_sheet(prm, p):
+                if mn == 'trc' and k == 1 and G.trc_other_sheet(prm, p_aux):
                     out['skipped_sheet'] += 1
                     continue
                 try:
@@ -311,6 +345,7 @@ def sweep_deck(bodies, rng, n_random, n_near):
                     out['failures'].append({
                         'surface': sid, 'mn': mn, 'params': prm,
                         'probe': [sign, k], 'point': list(p),
+                        'aux': list(p_aux), 'tr': trs.get(sid),
                         'error': f'T4 evaluation: {exc}'})
                     continue
                 out['checked'] += 1
@@ -318,6 +353,7 @@ def sweep_deck(bodies, rng, n_random, n_near):
                     out['failures'].append({
                         'surface': sid, 'mn': mn, 'params': prm,
                         'probe': [sign, k], 'point': list(p),
+                        'aux': list(p_aux), 'tr': trs.get(sid),
                         'expected': want, 'observed': got})
     return out
 
@@ -346,7 +382,9 @@ def report_failures(res, sweep, label):
         else:
             sign, k = fail['probe']
             ref = ('-' if sign < 0 else '+') + 'b' + (f'.{k}' if k else '')
-            what = (f'{label}: {fail["mn"].upper()} {fail["params"]}: cell '
+            what = (f'{label}: {fail["mn"].upper()} {fail["params"]}'
+                    + (f' with TR {fail["tr"]}' if fail.get('tr') else '')
+                    + ': cell '
                     f'{ref} at point {fail["point"]}: MCNP semantics say '
                     f'{fail["expected"]}, the written volume says '
                     f'{fail["observed"]}')
@@ -436,7 +474,13 @@ def run(res, tier, seed, proofs_ok):
               (3, 'wed', [1.0, 1, 1, -1, 0, 0, 0, 2, 0, 0, 0, 3]),
               (4, 'wed', [0.0, 0, 0, 1, 0, 0, 0, 2, 0, 0, 0, 3]),
               (5, 'box', [0.0, 0, 0, 0, 2, 0, 1, 0, 0, 0, 0, 3])]
-    sw = sweep_deck(corpus, random.Random(1), 60, 6)
+    corpus += [(6, 'wed', [1.0, 0, 0, 0, 2, 0, 1, 0, 0, 0, 0, 3]),
+               (7, 'rec', [0.0, 0, 0, 0, 0, 2, 1.5, 0, 0, 0.5]),
+               (8, 'trc', [0.0, 0, 0, 0, 3, 0, 2, 1])]
+    corpus_trs = {6: ([1.0, -2.0, 0.5], list(TR_ROTATIONS[4])),
+                  7: ([0.0, 1.0, 0.0], list(TR_ROTATIONS[6])),
+                  8: ([-1.0, 0.0, 2.0], list(TR_ROTATIONS[3]))}
+    sw = sweep_deck(corpus, random.Random(1), 60, 6, trs=corpus_trs)
     if not sw['conv'].ok:
         res.violation('impl-violation', 'corpus deck rejected: '
                       f'{sw["conv"].exc}: {sw["conv"].msg[:200]}',
@@ -676,7 +720,10 @@ def run(res, tier, seed, proofs_ok):
     pool = [(mn, prm) for mn, prm in forced[:len(forced) // (12 if quick else 60) * 3]] + pool
     odd_pool = [(mn, prm, fault) for mn, prm, fault in inputs
                 if fault in ('skew', 'inverted')
-                and mn in ('box', 'rpp', 'sph', 'rcc', 'trc', 'rhp', 'hex')]
+                and mn in ('box', 'rpp', 'sph', 'rcc', 'trc', 'rhp', 'hex')
+                # a flat "box" (coplanar edges) has no facets to speak of
+                and not (mn == 'box' and abs(G.det3(prm[3:6], prm[6:9],
+                                                    prm[9:12])) < 1e-6)]
     checked = 0
     skipped_sheet = 0
     k = 0
@@ -699,7 +746,12 @@ def run(res, tier, seed, proofs_ok):
             res.count(f'sweep:{mn}')
         if not bodies:
             continue
-        sw = sweep_deck(bodies, rng, n_random, n_near)
+        trs = {sid: gen_tr(rng) for sid, _, _ in bodies
+               if rng.random() < 0.3}
+        for sid, mn, _ in bodies:
+            if sid in trs:
+                res.count(f'sweep-with-tr:{mn}')
+        sw = sweep_deck(bodies, rng, n_random, n_near, trs=trs)
         checked += sw['checked']
         skipped_sheet += sw['skipped_sheet']
         if not sw['conv'].ok:
@@ -754,8 +806,8 @@ def replay(path):
         if fail and 'point' in fail and conv.text:
             t4 = impl.T4File(conv.text)
             ev = t4eval.Evaluator(t4, eps=EPS)
-            vals = [f(fail['point']) for f in G.ref_facets(fail['mn'],
-                                                           fail['params'])]
+            vals = [f(fail.get('aux', fail['point']))
+                    for f in G.ref_facets(fail['mn'], fail['params'])]
             print('reference facet values at the point:', vals)
             text, probes = probe_deck([(fail['surface'], fail['mn'],
                                         fail['params'])])
